@@ -158,9 +158,9 @@ def make_t3():
     return "T3", 0, sim, clf, nfc.tag.activate(clf, target)
 
 
-def make_t4(fwi=10):
+def make_t4(fwi=10, fsci=2, rchunk=20):
     app = NdefApplet()
-    sim = SimPicc(app, fsci=2, fwi=fwi, rchunk=20)
+    sim = SimPicc(app, fsci=fsci, fwi=fwi, rchunk=rchunk)
     sim.app = app
     clf = FaultClf("T4", sim)
     target = nfc.clf.RemoteTarget("106A", sens_res=bytearray(b"\x44\x03"), sel_res=bytearray(b"\x20"),
@@ -171,6 +171,8 @@ def make_t4(fwi=10):
 
 NDEF2 = bytes.fromhex("D1010B5402656E") + b"verif-c16"
 NDEF3 = bytes.fromhex("D101165402656E") + b"a-longer-message-016"
+NDEF4 = bytes.fromhex("D1012D5402656E") + b"chained-over-several-iso-dep-i-blocks-0042"      # 49 byte: one UPDATE
+LONG = bytes(range(0x30, 0x30 + 40))                                                         # BINARY of 51 byte data
 
 
 def need_ndef(tag):
@@ -250,6 +252,22 @@ def ops_table():
     ]
     T.append(("Type4ATag", lambda: make_t4(10), t4_ops))
     T.append(("Type4ATag-fwi13", lambda: make_t4(13), [o for o in t4_ops if o[0] in ("ndef_read", "send_apdu")]))
+    # commands and responses chained over several I-blocks (FSC 16/24: 13/21 byte per block, the card chains its answer
+    # by 10 byte): every block of a chain is a fault position and must get the full budget n_retry + 1 (tt4.py:93)
+    t4_chain = [
+        ("ndef_write_chained", need_ndef, set_octets(NDEF4), [], "qt"),                                   # 5 I-blocks
+        ("update_binary_chained", need_ndef, lambda t: t.send_apdu(0, 0xD6, 0, 60, LONG), [], "qt"),      # 4 I-blocks
+        ("transceive_chained", need_ndef,
+         lambda t: t.transceive(bytearray(b"\x00\xD6\x00\x40" + bytes([len(LONG)]) + LONG)), [], "qt"),
+        ("read_binary_chained", need_ndef, lambda t: t.send_apdu(0, 0xB0, 0, 0, mrl=55), [], "qt"),       # 6 blocks back
+        ("ndef_read_chained", nop, lambda t: t.ndef, ["None"], "qt"),
+        ("write_then_read_chained", need_ndef,
+         lambda t: (t.send_apdu(0, 0xD6, 0, 60, LONG), t.send_apdu(0, 0xB0, 0, 60, mrl=40))[1], [], "t"),
+    ]
+    T.append(("Type4ATag-fsc16", lambda: make_t4(10, 0, 10), t4_chain, (1, 2, 3, 4)))       # n_retry 3: bursts 1..n_retry+1
+    T.append(("Type4ATag-fsc16-fwi11", lambda: make_t4(11, 0, 10), t4_chain[:4], (1, 2)))   # n_retry 1
+    T.append(("Type4ATag-fsc24-fwi9", lambda: make_t4(9, 1, 10),
+              [o for o in t4_chain if o[0] in ("update_binary_chained", "read_binary_chained")], (1, 3, 5, 6)))  # n_retry 5
     return T
 
 
@@ -290,9 +308,11 @@ def scripts_for(n, bursts):
 
 def gen_traces(tier, only=None):
     quick = tier == "quick"
-    bursts = (1, 3) if quick else (1, 2, 3, 4)
+    dflt_bursts = (1, 3) if quick else (1, 2, 3, 4)
     traces, meta = [], {}
-    for cname, factory, ops in ops_table():
+    for entry in ops_table():
+        cname, factory, ops = entry[:3]
+        bursts = entry[3] if len(entry) > 3 else dflt_bursts
         for (oname, setup, op, doc, tiers) in ops:
             if ("q" if quick else "t") not in tiers:
                 continue
@@ -425,7 +445,8 @@ def run(tier, seed):
 
 def replay(rep, args):
     r = rep["replay"]
-    for cname, factory, ops in ops_table():
+    for entry in ops_table():
+        cname, factory, ops = entry[:3]
         for (oname, setup, op, doc, tiers) in ops:
             if (cname, oname) != (r["cls"], r["op"]):
                 continue
